@@ -1,7 +1,157 @@
 import SshAudit.Driver.WireOps
+import SshAudit.Driver.ReportOps
+import SshAudit.Driver.OutputOps
+import SshAudit.Driver.Ssh1ReportOps
+import SshAudit.Model.JsonDoc
 namespace SshAudit.Driver
+open SshAudit SshAudit.JsonDoc
 
-/-- stub: filled in by the builder of this extension -/
-def jsonDocOp (_op : String) (_args : List String) : Option J := none
+/-- a value in prefix notation, items separated by `/`:
+    `n` null, `t` / `f` bool, `i<decimal>` int, `s<text token>` str, `a<k>` a list of the `k` values that follow,
+    `o<k>` a dict of the `k` (key as `s…`, value) pairs that follow -/
+partial def decValToks : List String → Option (Val × List String)
+  | [] => none
+  | tok :: rest =>
+    match tok.toList with
+    | ['n'] => some (.null, rest)
+    | ['t'] => some (.bool true, rest)
+    | ['f'] => some (.bool false, rest)
+    | 'i' :: ds => (String.ofList ds).toInt?.map (fun i => (.int i, rest))
+    | 's' :: ds => (decStr (String.ofList ds)).map (fun t => (.str t, rest))
+    | 'a' :: ds =>
+      match (String.ofList ds).toNat? with
+      | none => none
+      | some k =>
+        let rec go : Nat → List String → List Val → Option (List Val × List String)
+          | 0, r, acc => some (acc.reverse, r)
+          | k + 1, r, acc =>
+            match decValToks r with
+            | some (v, r') => go k r' (v :: acc)
+            | none => none
+        (go k rest []).map (fun (xs, r) => (.arr xs, r))
+    | 'o' :: ds =>
+      match (String.ofList ds).toNat? with
+      | none => none
+      | some k =>
+        let rec goM : Nat → List String → List (Str × Val) → Option (List (Str × Val) × List String)
+          | 0, r, acc => some (acc.reverse, r)
+          | k + 1, r, acc =>
+            match decValToks r with
+            | some (.str key, r') =>
+              match decValToks r' with
+              | some (v, r'') => goM k r'' ((key, v) :: acc)
+              | none => none
+            | _ => none
+        (goM k rest []).map (fun (kvs, r) => (.obj kvs, r))
+    | _ => none
+
+def decVal (tok : String) : Option Val :=
+  match decValToks (tok.splitOn "/") with
+  | some (v, []) => some v
+  | _ => none
+
+instance : Inhabited J := ⟨.null⟩
+
+/-- a parse tree of the modelled `json.loads` in the driver's JSON: objects as lists of `[key, value]` pairs (all members, in source
+    order), floats as the string `float` inside a one-element object -/
+partial def jOfJV : PolicyFile.Json.JV → J
+  | .null => .null
+  | .bool b => .bool b
+  | .int i => .num i
+  | .float => .obj [("float", .null)]
+  | .str v => .str v
+  | .arr xs => .arr (xs.map jOfJV)
+  | .obj kvs => .obj [("obj", .arr (kvs.map fun (k, v) => .arr [.str k, jOfJV v]))]
+
+def jLoads (t : Str) : J :=
+  match PolicyFile.Json.loads t with
+  | .ok v => jok (jOfJV v)
+  | .error .invalid => .obj [("err", .str "json".toList)]
+  | .error .outOfModel => .obj [("err", .str "out-of-model".toList)]
+
+def jTexts (v : Val) : J :=
+  let c := dumpsCompact v
+  let i := dumpsIndented v
+  .obj [("compact", .str c), ("indented", .str i), ("loadsCompact", jLoads c), ("loadsIndented", jLoads i)]
+
+/-- `<raw> <protocol> <software|~> <comments|~>` or a single `~` -/
+def decBannerDoc : List String → Option (Option BannerDoc)
+  | ["~"] => some none
+  | [raw, pr, sw, cm] => do
+    let raw ← decStr raw; let pr ← decStr pr; let sw ← decOptStr sw; let cm ← decOptStr cm
+    pure (some { raw := raw, protocol := pr, software := sw, comments := cm })
+  | _ => none
+
+/-- the entries of the per-thread database that differ from the master copy when `output()` is called (the scan records host-key and
+    modulus size findings there): `cat:name:slot|slot|…` joined by `;` (`_` = none); a slot is `,`-joined optional texts (`_` = empty) -/
+def decSlot (tok : String) : Option (List (Option Str)) :=
+  if tok = "_" then some [] else (tok.splitOn ",").mapM decOptStr
+
+def decEdits (tok : String) : Option (List (Str × Str × List (List (Option Str)))) :=
+  if tok = "_" then some [] else
+  (tok.splitOn ";").mapM fun (e : String) =>
+    match e.splitOn ":" with
+    | [c, n, d] => do
+      let c ← decStr c; let n ← decStr n; let d ← (d.splitOn "|").mapM decSlot
+      pure (c, n, d)
+    | _ => none
+
+def applyEdits (db : DB) (es : List (Str × Str × List (List (Option Str)))) : DB :=
+  es.foldl (fun d (c, n, desc) => Report.updateEntry d c n (fun _ => desc)) db
+
+/-- `jd.dumps <value>`: the two texts of `json.dumps(v, sort_keys=True)` / `…, indent=4` and what the modelled `json.loads` makes of each.
+    `jd.loads <text>`: the modelled `json.loads`.
+    `jd.doc <host:port> <client|~> <fps> <role> <banner software|~> <banner comments|~> <rate notes> <kex> <key> <encC> <encS> <macC> <macS> <comp> <hostkeys> <dh> <db edits> <banner tokens…>`:
+    the document of a standard audit of an SSH-2 peer (generated tables), as the two texts.
+    `jd.doc1 <cmask> <amask> <hkBits> <hkE> <hkN> <client|~> <rate> <host:port> <sha256 text> <banner tokens of ssh1.report…>`: the else-branch for an SSH-1 peer.
+    `jd.docnone <client|~> <host:port> <notes> <banner tokens of ssh1.report…>`: the else-branch without any peer data (error path). -/
+def jsonDocOp (op : String) (args : List String) : Option J :=
+  match op with
+  | "jd.dumps" =>
+    match args with
+    | [v] => do let v ← decVal v; pure (jok (jTexts v))
+    | _ => none
+  | "jd.loads" =>
+    match args with
+    | [t] => do let t ← decStr t; pure (jLoads t)
+    | _ => none
+  | "jd.doc" =>
+    match args with
+    | hp :: cl :: fps :: role :: bsw :: bcm :: rn :: k :: key :: ec :: es :: mc :: ms :: c :: hk :: dh :: eds :: btoks => do
+      let hp ← decStr hp; let cl ← decOptStr cl; let fps ← decFps fps
+      let client ← decBool role
+      let bsw ← decOptStr bsw; let bcm ← decOptStr bcm; let rate ← decStr rn
+      let peer ← decPeerR [k, key, ec, es, mc, ms, c, hk, dh]
+      let b ← decBannerDoc btoks
+      let eds ← decEdits eds
+      let m : Meta := { hostPort := hp, clientHost := cl, banner := b, fps := fps }
+      let v := docOfAudit Gen.rsaFamily Gen.failUnknown (applyEdits Gen.ssh2db eds) peer client bsw (Version.parse bsw bcm) rate m
+      pure (jok (jTexts v))
+    | _ => none
+  | "jd.doc1" =>
+    match args with
+    | cm :: am :: hb :: he :: hn :: cl :: rn :: hp :: sha :: btoks => do
+      let cm ← decNat cm; let am ← decNat am; let hb ← decNat hb; let he ← decNat he; let hn ← decNat hn
+      let cl ← decOptStr cl; let rn ← decStr rn; let hp ← decStr hp; let sha ← decStr sha
+      let b ← decBanner1 btoks
+      let pkm : Wire.Pkm := { cookie := [], skBits := 0, skE := 0, skN := 0, hkBits := hb, hkE := he, hkN := hn, pflags := 0, cmask := cm, amask := am }
+      let x : Ssh1Report.Input := { pkm := pkm, banner := b, clientHost := cl, target := none, header := [], rateNotes := rn, hostPort := hp }
+      let h : Ssh1Report.Hashes := { sha256 := fun _ => sha, md5 := fun _ => [] }
+      pure (jok (jTexts (docElse (Ssh1Report.doc ssh1Tables h Gen.ssh1db Gen.ssh2db x))))
+    | _ => none
+  | "jd.docnone" =>
+    match args with
+    | cl :: hp :: notes :: btoks => do
+      let cl ← decOptStr cl; let hp ← decStr hp; let notes ← decStrs notes
+      let b ← decBanner1 btoks
+      let d : Ssh1Report.Doc := {
+        bannerRaw := match b with | some b => Banner.render b | none => [],
+        bannerProtocol := b.map (fun b => Text.natToStr b.protocol.1 ++ ['.'] ++ Text.natToStr b.protocol.2),
+        bannerSoftware := b.bind (·.software), bannerComments := b.bind (·.comments),
+        clientIp := cl, target := if cl.isSome then none else some hp,
+        key := [Ssh1Report.rsa1], enc := none, aut := none, fpType := Ssh1Report.rsa1, fp := none, recs := [], notes := notes }
+      pure (jok (jTexts (docElse d)))
+    | _ => none
+  | _ => none
 
 end SshAudit.Driver
